@@ -72,7 +72,7 @@ def try_shapes(full):
 
 def with_shapes(full):
     """managers: tuple of suppress flags; a flag may also be "Ts"/"Fs" = the manager EXPRESSION is statement-producing,
-    (do (setv z 1) (cm i s)), which makes the compiler nest a second `with` statement."""
+    (do (setv z (mk i)) (cm i s)) with `mk` a logged effect, which makes the compiler nest a second `with` statement."""
     one = [((s,),) for s in (False, True)]
     two = [((a, b),) for a in (False, True) for b in (False, True)]
     stm = [((False, "Fs"),), ((True, "Ts"),), (("Fs", False),)]
@@ -178,7 +178,7 @@ def render(t):
     _, mgrs, body = t
 
     def mexpr(i, s, st):
-        return f"(do (setv z 1) (cm {i} {s}))" if st else f"(cm {i} {s})"
+        return f"(do (setv z (mk {i})) (cm {i} {s}))" if st else f"(cm {i} {s})"
     if len(mgrs) == 1:
         spec = mexpr(*mgrs[0])
     else:
@@ -228,7 +228,11 @@ class World:
                 w.log.append(("cm", s.i, "exit", None if et is None else et.__name__))
                 w._maybe(("cm", s.i, "exit"))
                 return s.sup
-        self.pt, self.pte, self.cm = pt, pte, cm
+        def mk(i):
+            # the statement part of a statement-producing manager expression: logged, never faulted
+            w.log.append(("mk", i))
+            return i
+        self.pt, self.pte, self.cm, self.mk = pt, pte, cm, mk
 
     def _maybe(self, key):
         k = self.plan.get(key)
@@ -271,7 +275,9 @@ def ref_eval(t, w, e="outer"):
     def nest(ms):
         if not ms:
             return ref_eval(body, w, e)
-        i, sup, _st = ms[0]
+        i, sup, st = ms[0]
+        if st:
+            w.mk(i)
         c = w.cm(i, sup)
         v = None
         with c:
@@ -383,7 +389,7 @@ def check_program(acc, prog, only=None, sample=False):
                 rv = ("exc", type(ex).__name__)
             # implementation
             iw = World(plan)
-            g = {"pt": iw.pt, "pte": iw.pte, "cm": iw.cm, "__name__": mod.__name__}
+            g = {"pt": iw.pt, "pte": iw.pte, "cm": iw.cm, "mk": iw.mk, "__name__": mod.__name__}
             try:
                 exec(code, g)
                 if ctx == "module":
